@@ -185,3 +185,20 @@ CHECKS["C08"] = dict(
     design_ref="DESIGN.md 4 C08",
     assumptions=["reference geometry / lattice model correct", "NNC widenings act on the representation (definitions.dox): no value-dependence check"],
 )
+
+CHECKS["C15"] = dict(
+    title="ascii_dump / ascii_load round-trips every object in every internal state",
+    quick=T([("c15_dumpload", 1)], cases=200000, secs=45),
+    thorough=T([("c15_dumpload", 1)], cases=5000000, secs=600, flavour="san"),
+    rule="case = object reached through a generated history (C/NNC polyhedra, Grid, BD_Shape<mpq|double>, Octagonal_Shape<mpz|double>, Rational/Double "
+         "boxes, Pointset_Powerset<C_Polyhedron>, Constraints_Product<C_Polyhedron,Grid>, constraint / generator / congruence / grid-generator "
+         "systems and single rows in both representations, Linear_Expression, Variables_Set, Sparse_Row, Dense_Row, MIP_Problem and PIP_Problem before "
+         "and after solving) dumped in whatever lazy state it is in and loaded into a target holding another value (other dimension, empty, "
+         "universe, arbitrary history); oracle: load succeeds, OK(), second dump byte-identical, same value, and the same generated suffix of "
+         "operations applied to original and clone gives identical dumps and answers. Non-trivial: history of >= 2 operations / solver dumped after a solve / >= 2 rows.",
+    technique="property-based testing (round-trip oracle on generated lazy states, behavioural equivalence of original and clone)",
+    level_text="Generated-history exploration of the dump/load round trip with a behavioural-equivalence follow-up.",
+    level_note="Matrix<Row>, Bit_Matrix, DB_Matrix, OR_Matrix, Interval and Linear_Form are exercised only through the domains that embed them.",
+    design_ref="DESIGN.md 4 C15",
+    assumptions=["operator== of the domains is used for the value comparison of original and clone (both are library objects)"],
+)
